@@ -78,6 +78,12 @@ func genC13(p *Plan, r *RNG) {
 		p.QuietNS = 20 * sec
 		return
 	}
+	if r.Chance(1, 5) {
+		// the client speaks TURN over a stream (its Conn is a STUNConn): the same contract, and
+		// what it writes must stay a sequence of whole, padded frames
+		p.Cfg.Extra["stream"] = 1
+		p.Flavor = "relay-stream"
+	}
 	// server reactions
 	for k := r.Intn(4); k > 0; k-- {
 		do := r.Pick([]string{"err:400", "err:403", "stale", "drop", "ok", "ok"})
@@ -125,7 +131,7 @@ func genC13(p *Plan, r *RNG) {
 			for k := 0; k < r.PickInt([]int{50, 1100}); k++ {
 				p.Ops = append(p.Ops, Op{Actor: "srv", Kind: "srv_data", At: gap(1000), A: OpArgs{Peer: peer, Len: 12}})
 			}
-		case w < 90:
+		case w < 90 && p.Cfg.Extra["stream"] != 1:
 			p.Ops = append(p.Ops, Op{Actor: "srv", Kind: "srv_raw", At: g, A: OpArgs{Raw: "0001000000000000"}})
 		default:
 			p.Ops = append(p.Ops, Op{Actor: "app", Kind: "wait", At: g})
